@@ -440,6 +440,11 @@ macro_rules! impl_veclike {
                 let mut d = self.drain(r);
                 obs.n(d.len() as i64);
                 obs.n(hint_code(d.size_hint()));
+                if E::COPY {
+                    let _g = Callback::enter();
+                    let t = format!("{:?}", d);
+                    obs.n(t.bytes().fold(t.len() as i64, |a, c| (a * 31 + c as i64) % 1_000_003));
+                }
                 match mode {
                     0 => {}
                     1 => {
@@ -597,6 +602,11 @@ macro_rules! impl_veclike {
                             obs.n(e.val() as i64);
                         }
                         obs.n(it.as_mut_slice().len() as i64);
+                        if E::COPY {
+                            let _g = Callback::enter();
+                            let t = format!("{:?}", it);
+                            obs.n(t.bytes().fold(t.len() as i64, |a, c| (a * 31 + c as i64) % 1_000_003));
+                        }
                     }
                     6 => {
                         let mut sk = it.skip(n + 1);
@@ -724,6 +734,15 @@ impl_veclike!(
     },
     |s: &mut BVec<'static, E>, other: &BVec<'static, E>, obs: &mut Obs| {
         // impls only the arena Vec and std's Vec have in common: BorrowMut, AsRef<Vec>/AsMut<Vec>, comparisons with slices and arrays
+        obs.n(s.is_empty() as i64);
+        {
+            // take a clone apart and rebuild it from its raw parts
+            let mut m = std::mem::ManuallyDrop::new(other.clone());
+            let (p, l, c, b) = (m.as_mut_ptr(), m.len(), m.capacity(), b_bump(&m));
+            let back = unsafe { BVec::from_raw_parts_in(p, l, c, b) };
+            obs.n(back.len() as i64 * 100 + (back.capacity() >= back.len()) as i64);
+            drop(back);
+        }
         let d: &mut [E] = std::borrow::BorrowMut::borrow_mut(&mut *s);
         obs.n(d.len() as i64);
         let b: &[E] = std::borrow::Borrow::borrow(&*s);
@@ -797,6 +816,14 @@ impl_veclike!(
     },
     |s: &mut Vec<E>, other: &Vec<E>, obs: &mut Obs| {
         // impls only the arena Vec and std's Vec have in common: BorrowMut, AsRef<Vec>/AsMut<Vec>, comparisons with slices and arrays
+        obs.n(s.is_empty() as i64);
+        {
+            let mut m = std::mem::ManuallyDrop::new(other.clone());
+            let (p, l, c) = (m.as_mut_ptr(), m.len(), m.capacity());
+            let back = unsafe { Vec::from_raw_parts(p, l, c) };
+            obs.n(back.len() as i64 * 100 + (back.capacity() >= back.len()) as i64);
+            drop(back);
+        }
         let d: &mut [E] = std::borrow::BorrowMut::borrow_mut(&mut *s);
         obs.n(d.len() as i64);
         let b: &[E] = std::borrow::Borrow::borrow(&*s);
